@@ -275,6 +275,16 @@ func (x *Exec) execAlloc(fr *frame, t *ssa.Alloc, st *State, reach string) *Stat
 		if g, ok := x.eng.onAlloc[comp]; ok {
 			x.assume("", "(not (select "+st.get("G_"+g)+" "+r+"))")
 		}
+		for _, g := range x.eng.onAllocEmpty[comp] {
+			srt := x.eng.ghosts[g]
+			parts := splitSexp(srt)
+			if len(parts) == 3 {
+				inner := splitSexp(parts[2])
+				if len(inner) == 3 && inner[2] == "Bool" {
+					x.assume("", "(= (select "+st.get("G_"+g)+" "+r+") ((as const "+parts[2]+") false))")
+				}
+			}
+		}
 		for k, g := range x.eng.onStoreFlag {
 			if strings.HasPrefix(k, comp+".") {
 				x.assume("", "(not (select "+st.get("G_"+g)+" "+r+"))")
